@@ -342,6 +342,20 @@ func main() {
 		if c.Kind == "page" && c.Args.After != nil && c.Args.Before != nil {
 			run.Hist("page:after+before")
 		}
+		// share of cases inside the premises of the theorems (unique keys hold for every case)
+		if _, sortOK := refList(c, c.Args); c.Kind != "page" {
+			if sortOK {
+				run.Hist("premises:walk-theorems(sort_ok,k>0):met")
+			} else {
+				run.Hist("premises:walk-theorems:not-met(unknown sort field: error theorem)")
+			}
+		} else if resolverPaginates(c) {
+			run.Hist("premises:resolver-page-info-theorems")
+		} else if sortOK && argsValid(c.Args) {
+			run.Hist("premises:per-page-theorems(sort_ok,args_ok):met")
+		} else {
+			run.Hist("premises:per-page-theorems:not-met(rejection theorems)")
+		}
 		if c.Kind == "page" {
 			f, l := c.Args.First, c.Args.Last
 			switch {
